@@ -183,6 +183,26 @@ func runC07(c *mon.Ctx) {
 		c07bigBatch(c)
 		return
 	}
+	// before the process creates its configuration (which decodes the 256 basis points): on some shards the first
+	// decodings of the process are Identity.Bytes() / Generator.Bytes(): decode(P.Bytes()) must be an element Equal to P
+	// whatever was decoded before - also when nothing was
+	if c.Shard%3 != 0 {
+		c.Case("first-decode-of-the-process", func() {
+			for _, p := range []*banderwagon.Element{&banderwagon.Identity, &banderwagon.Generator}[c.Shard%3-1:] {
+				by := p.Bytes()
+				var e banderwagon.Element
+				if err := e.SetBytes(by[:]); err != nil {
+					c.Fail("decode-own-encoding", "SetBytes(P.Bytes()) failed as the first decoding of the process: "+err.Error(), nil)
+					continue
+				}
+				eb := e.Bytes()
+				if !e.Equal(p) || !p.Equal(&e) || !e.Equal(&e) || eb != by {
+					c.Fail("decode-own-encoding/not-equal", "the first decoding of the process: decode(P.Bytes()) is not Equal to P (or not to itself), or re-encodes differently", nil)
+				}
+				c.Count("first_decodings_checked", 1)
+			}
+		})
+	}
 	env := GetEnv()
 	base := NewPool(c.Rand("pool"), 64)
 	nh := c.Pick(300, 20000)
